@@ -85,6 +85,22 @@ __CPROVER_ensures((__CPROVER_return_value == MFalse) == (typeCode == B_BOOL_TYPE
 __CPROVER_ensures(__CPROVER_return_value == MFalse || __CPROVER_return_value == MTrue)
 ;
 """, 'uint32 t; IsTypeCodeVariableSize(t);', None),
+    ('MBAllocByteBuffer', r"""
+MByteBuffer * MBAllocByteBuffer(uint32 numBytes, MBool clearBytes)
+__CPROVER_requires(numBytes <= MV_MAXBLK)
+__CPROVER_assigns()
+__CPROVER_ensures(__CPROVER_return_value != NULL ==> (__CPROVER_is_fresh(__CPROVER_return_value, sizeof(MByteBuffer) + numBytes) && __CPROVER_return_value->numBytes == numBytes))
+__CPROVER_ensures((__CPROVER_return_value != NULL && clearBytes && mv_k < numBytes) ==> (&__CPROVER_return_value->bytes)[mv_k] == 0)
+;
+""", 'uint32 n; MBool c; unsigned int k; mv_k = k; MBAllocByteBuffer(n, c);', 'payload <= 16 bytes'),
+    ('MBCloneByteBuffer', r"""
+MByteBuffer * MBCloneByteBuffer(const MByteBuffer * cloneMe)
+__CPROVER_requires(__CPROVER_is_fresh(cloneMe, sizeof(MByteBuffer) + MV_MAXBLK) && cloneMe->numBytes <= MV_MAXBLK)
+__CPROVER_assigns()
+__CPROVER_ensures(__CPROVER_return_value != NULL ==> (__CPROVER_is_fresh(__CPROVER_return_value, sizeof(MByteBuffer) + cloneMe->numBytes) && __CPROVER_return_value->numBytes == cloneMe->numBytes))
+__CPROVER_ensures((__CPROVER_return_value != NULL && mv_k < cloneMe->numBytes) ==> (&__CPROVER_return_value->bytes)[mv_k] == (&cloneMe->bytes)[mv_k])
+;
+""", 'const MByteBuffer *b; unsigned int k; mv_k = k; MBCloneByteBuffer(b);', 'payload <= 16 bytes'),
 ]
 
 MM_FIXED = ' || '.join('f->typeCode == %s' % t for t in ('B_BOOL_TYPE', 'B_DOUBLE_TYPE', 'B_FLOAT_TYPE', 'B_INT64_TYPE', 'B_INT32_TYPE', 'B_INT16_TYPE',
@@ -171,7 +187,7 @@ def meta(tier):
     L = codec.lower()
     m = codec.meta_common(L)
     m.update(level='proof',
-             not_lowered=['Message::Flatten framing (Hashtable iteration)', 'lang/python3 (no verifier for Python here)', 'MiniMessage.c above its leaves: MMFlattenMessage / MMUnflattenMessage / FlattenMMessageField / SwapCopy are not under contract (only the cursor read/write ReadData / WriteData, WillUnsignedAddOverflow, the type table IsTypeCodeVariableSize, GetMMessageFieldFlattenedSize for fixed-size field types, AllocMMessageField and ImportMMessageField are); WillUnsignedMultiplyOverflow: contract tried (result == 64-bit product > 2^32-1), the 32-bit divide does not finish on any back end in 4 min, not registered', 'MicroMessage field-level writers UMAdd* (only its primitive readers/writers are covered)'],
+             not_lowered=['Message::Flatten framing (Hashtable iteration)', 'lang/python3 (no verifier for Python here)', 'MiniMessage.c above its leaves: MMFlattenMessage / MMUnflattenMessage / FlattenMMessageField / SwapCopy are not under contract (only the cursor read/write ReadData / WriteData, WillUnsignedAddOverflow, the type table IsTypeCodeVariableSize, GetMMessageFieldFlattenedSize for fixed-size field types, AllocMMessageField, ImportMMessageField, MBAllocByteBuffer and MBCloneByteBuffer are); WillUnsignedMultiplyOverflow: contract tried (result == 64-bit product > 2^32-1), the 32-bit divide does not finish on any back end in 4 min, not registered', 'MicroMessage field-level writers UMAdd* (only its primitive readers/writers are covered)'],
              explanation='Each LittleEndianConverter::Export/Import overload and each DataFlattener Write* method is enforced against the documented byte layout '
                          '(exactly sizeof(T) bytes, byte k = bits 8k..8k+7) for all 2^(8*sizeof T) values; the writer contracts add cursor and frame conditions.')
     return m
